@@ -7,6 +7,10 @@ pub(crate) mod verif_peek {
 	pub fn inner<L>(p: &Poisonable<L>) -> &L {
 		&p.inner
 	}
+	/// address of the poison flag (for sampling it at the instant a hold is released)
+	pub fn flag_addr<L>(p: &Poisonable<L>) -> usize {
+		&p.poisoned.0 as *const std::sync::atomic::AtomicBool as usize
+	}
 	/// puts the wrapper into the poisoned state (what a panic during a hold does)
 	pub fn set_poisoned<L>(p: &Poisonable<L>) {
 		p.poisoned.poison();
